@@ -352,7 +352,7 @@ func dial(id int) string { return fmt.Sprintf("u%d.test:80", id) }
 
 const cookieSecret = "s3cr3t"
 
-func cookieName(depth int) string { return fmt.Sprintf("lb%d", depth) }
+func cookieName(depth int) string  { return fmt.Sprintf("lb%d", depth) }
 func headerField(depth int) string { return fmt.Sprintf("X-Lb-%d", depth) }
 func queryKey(depth int) string    { return fmt.Sprintf("k%d", depth) }
 
@@ -826,6 +826,58 @@ func tagsFor(c caseT, results []selResult, consumed int) []string {
 	}
 	if consumed > 0 {
 		tags = append(tags, "draws-used")
+	}
+	ids := map[int]bool{}
+	minLoad, ties := -1, 0
+	for _, u := range c.pool {
+		if ids[u.id] {
+			tags = append(tags, "dup-dial")
+			break
+		}
+		ids[u.id] = true
+	}
+	for _, u := range c.pool {
+		if !u.avail() {
+			continue
+		}
+		switch {
+		case minLoad < 0 || u.load < minLoad:
+			minLoad, ties = u.load, 1
+		case u.load == minLoad:
+			ties++
+		}
+	}
+	switch eff.kind {
+	case "lc":
+		if ties > 1 {
+			tags = append(tags, "lc:tie-for-least")
+		}
+	case "rc":
+		k := leaf.choose
+		if k == 0 {
+			k = 2
+		}
+		switch {
+		case nav > k:
+			tags = append(tags, "rc:choose<available")
+		case nav > 0:
+			tags = append(tags, "rc:choose>=available")
+		}
+		if minLoad == 0 {
+			tags = append(tags, "rc:idle-upstream")
+		}
+	case "rnd":
+		if nav > 1 {
+			tags = append(tags, "rnd:several-available")
+		}
+	case "ck":
+		tags = append(tags, "cookie:followed")
+	}
+	for _, n := range c.chain {
+		if n.kind == "ck" && n.cookie >= 0 && eff.kind != "ck" {
+			tags = append(tags, "cookie:invalid-or-stale")
+			break
+		}
 	}
 	if leaf.kind == "rr" || leaf.kind == "wrr" {
 		if uint64(leaf.counter)+uint64(c.n*(len(c.pool)+1)) >= u32 {
